@@ -125,9 +125,9 @@ func Modules(t *rapid.T, o ModOpts) *ModuleSet {
 	if o.Scale {
 		c.mixPrefix = rapid.IntRange(0, 2).Draw(t, "mixPrefix") == 0
 		if rapid.IntRange(0, 4).Draw(t, "scale") == 0 {
-			dims := []string{"files", "files-broken", "big-type", "many-errors", "many-conds"}
+			dims := []string{"files", "files-broken", "big-type", "many-errors", "many-conds", "many-types"}
 			if o.ScaleNoBroken {
-				dims = []string{"files", "big-type", "many-conds"}
+				dims = []string{"files", "big-type", "many-conds", "many-types"}
 			}
 			scale = rapid.SampledFrom(dims).Draw(t, "scaleDim")
 		}
@@ -154,6 +154,9 @@ func Modules(t *rapid.T, o ModOpts) *ModuleSet {
 	base := map[string]*baseInfo{}
 	var baseNames []string
 	nTypes := rapid.IntRange(1, 5).Draw(t, "nBaseTypes")
+	if scale == "many-types" {
+		nTypes = rapid.SampledFrom([]int{15, 16, 17, 31, 32, 33, 34, 40, 64, 65}).Draw(t, "nBaseTypesBig")
+	}
 	for i := 0; i < nTypes; i++ {
 		tn := c.fresh("t")
 		fi := rapid.IntRange(0, nFiles-1).Draw(t, "typeFile")
@@ -194,6 +197,9 @@ func Modules(t *rapid.T, o ModOpts) *ModuleSet {
 	}
 	var exts []extInfo
 	nExt := rapid.IntRange(0, 5).Draw(t, "nExtensions")
+	if scale == "many-types" {
+		nExt = nTypes / 2 // every other type is extended by some file
+	}
 	if o.MinExtFiles > 0 && nExt < o.MinExtFiles {
 		nExt = o.MinExtFiles
 	}
@@ -788,14 +794,37 @@ func caseVariants(t *rapid.T, ms *ModuleSet) {
 			}
 		}
 	}
+	// the variant of a name: upper case; or a zero in front of its first digit ("tier1" / "tier01": equal for a "natural"
+	// comparison of digit runs); or '-' and '.' swapped for '_' (equal for a comparison that ignores punctuation)
+	mode := rapid.SampledFrom([]string{"upper", "upper", "zeros", "zeros", "dash"}).Draw(t, "variantMode")
+	variant := func(n string) string {
+		switch mode {
+		case "zeros":
+			for i, r := range n {
+				if r >= '0' && r <= '9' {
+					return n[:i] + "0" + n[i:]
+				}
+			}
+			return n
+		case "dash":
+			return strings.NewReplacer("-", "_", ".", "_").Replace(n)
+		}
+		return strings.ToUpper(n)
+	}
 	pick := func(list []string, seen map[string]bool, keep map[string]bool, label string) (from, to string) {
 		if len(list) < 2 {
 			return "", ""
 		}
 		a := rapid.IntRange(0, len(list)-1).Draw(t, label+"A")
+		if mode != "upper" {
+			// prefer a name the variant changes
+			for k := 0; k < len(list) && variant(list[a]) == list[a]; k++ {
+				a = (a + 1) % len(list)
+			}
+		}
 		b := rapid.IntRange(0, len(list)-1).Draw(t, label+"B")
-		up := strings.ToUpper(list[a])
-		if a == b || up == list[a] || seen[up] || keep[list[b]] {
+		up := variant(list[a])
+		if a == b || up == list[a] || seen[up] || keep[list[b]] || !singleToken(up) || reservedDefault[up] || reservedCondMode[up] {
 			return "", ""
 		}
 		return list[b], up
